@@ -178,3 +178,20 @@ impl OsIpcSender {
     #[verifier::external_body]
     pub fn get_max_fragment_size() -> (r: usize) ensures r == spec_first(sys_sendbuf()) { unimplemented!() }
 }
+
+// ---- Drop for OsIpcReceiverSet ----
+// D32: `for &PollEntry { id: _, fd } in self.pollfds.values()` iterates over a vector holding every entry of the map exactly
+// once (one per key), in an unspecified order - std's HashMap::values contract, assumed.
+#[verifier::external_body]
+pub fn values_vec(m: &HashMap<Token, PollEntry>) -> (r: Vec<PollEntry>)
+    ensures exists|ks: Seq<Token>| ks.no_duplicates() && ks.to_set() == m@.dom() && ks.len() == r@.len()
+                && (forall|i: int| 0 <= i < ks.len() ==> (#[trigger] r@[i]) == m@[ks[i]])
+{ m.values().copied().collect() }
+// libc::close(fd) issued by the set's Drop: requires the member's descriptor to be still open (never twice); closing an open descriptor succeeds
+#[verifier::external_body]
+pub fn k_close_member(fd: c_int, Tracked(s): Tracked<&mut S>) -> (r: c_int)
+    requires old(s).open.contains(fd), //@@clause:unix.set.drop/requires.closes_only_open_descriptors_of_members
+    ensures r == 0, final(s).open == old(s).open.remove(fd), final(s).registered == old(s).registered, final(s).rx == old(s).rx,
+        final(s).drained == old(s).drained, final(s).polled_nonempty == old(s).polled_nonempty, final(s).taken == old(s).taken
+{ unimplemented!() }
+pub mod thread { use super::*; #[verifier::external_body] pub fn panicking() -> bool { unimplemented!() } }
